@@ -3,7 +3,7 @@ from __future__ import annotations
 
 import ast
 
-from .. import astu, types
+from .. import evid, astu, types
 from ..cfg import cfg_of
 from ..model import AnalysisError
 from ..report import key_of
@@ -52,6 +52,26 @@ def _sentinel_refs(repo, mod, func):
   return out
 
 
+_SEP_NOTNONE = lambda e: isinstance(e, ast.Compare) and len(e.ops) == 1 and isinstance(e.ops[0], ast.IsNot) and astu.src(e.left) == 'sep' and astu.is_const(e.comparators[0], None)
+_SEP_NONE = lambda e: isinstance(e, ast.Compare) and len(e.ops) == 1 and isinstance(e.ops[0], ast.Is) and astu.src(e.left) == 'sep' and astu.is_const(e.comparators[0], None)
+
+
+def _sep_guard(R, c, nodes, key, where, msg, asts=()):
+  """`nodes` (uses of sep as a string) must be reached only when sep is not None."""
+  if asts and all(evid.expr_guard(a, _SEP_NOTNONE, func=c.func) or evid.expr_guard(a, _SEP_NONE, negative=True, func=c.func) for a in asts):
+    R.ok(key, where)
+    return
+  if not nodes:
+    R.unsure(key, where, 'use of the separator not found (%s)' % msg)
+    return
+  g = [('yes' if 'yes' in (evid.guarded(c, n, _SEP_NOTNONE), evid.guarded(c, n, _SEP_NONE, negative=True)) else
+        ('absent' if evid.guarded(c, n, _SEP_NOTNONE) == 'absent' and evid.guarded(c, n, _SEP_NONE, negative=True) == 'absent' else 'bypass')) for n in nodes]
+  if all(x == 'yes' for x in g):
+    R.ok(key, where)
+  else:
+    R.fail(key, where, '%s: `%s` is reached %s' % (msg, astu.short(nodes[g.index([x for x in g if x != 'yes'][0])].stmt), 'although sep may be None' if 'bypass' in g else 'without any test of `sep is None`'))
+
+
 @rule('C16.R1', 'K4', 8, 'separator and empty-node sentinel agree between flatten and unflatten')
 def r1(R, repo):
   for rel, fl, unfl in PAIRS:
@@ -74,8 +94,13 @@ def r1(R, repo):
         # the other branch returns the path itself
         rets = [n for n in c.nodes if isinstance(n.stmt, ast.Return) and n not in jn]
         ok = ok and any(isinstance(r.stmt.value, ast.Name) and r.stmt.value.id == astu.params(keyf.node)[0] for r in rets)
-    R.check(ok, key_of(keyf, 'sep.join only when sep is not None'), keyf,
-            '%s._key must return sep.join(path) exactly when sep is not None and the tuple path otherwise' % fl)
+    ck = cfg_of(keyf)
+    if not joins and 'sep' not in astu.names_loaded(keyf.node):
+      R.fail(key_of(keyf, 'sep.join only when sep is not None'), keyf, '%s._key ignores the separator: keys are never joined, so flatten_dict(..., sep=s) returns tuple keys and unflatten cannot split them' % fl)
+    else:
+      _sep_guard(R, ck, evid.nodes_of(ck, joins), key_of(keyf, 'sep.join only when sep is not None'), keyf, '%s._key must return sep.join(path) exactly when sep is not None and the tuple path otherwise' % fl, asts=joins)
+    if joins:
+      R.judge(True, ok, key_of(keyf, 'tuple path returned when sep is None'), keyf, '%s._key must return the tuple path itself when sep is None' % fl) if ok else R.unsure(key_of(keyf, 'tuple path returned when sep is None'), keyf, 'return of the raw path not recognised')
     splits = [c for c in astu.func_calls(U) if astu.call_tail(c) == 'split' and c.args and astu.src(c.args[0]) == 'sep']
     ok = False
     if splits:
@@ -86,16 +111,17 @@ def r1(R, repo):
         t = tests[0]
         lab = 'F' if astu.src(t.ast) == 'sep is None' else 'T'
         ok = all(c.edge_guarded(s, t, lab) for s in sn)
-    R.check(ok, key_of(U, 'path.split(sep) only when sep is not None'), U,
-            '%s must split keys with the same separator exactly when sep is not None' % unfl)
+    cU = cfg_of(U)
+    _sep_guard(R, cU, evid.nodes_of(cU, splits), key_of(U, 'path.split(sep) only when sep is not None'), U, '%s must split keys with the same separator exactly when sep is not None' % unfl, asts=splits)
     # every produced key goes through _key (leaf and empty-node entries)
     bad = []
     for n in astu.body_walk(inner.node):
       if isinstance(n, ast.Return) and isinstance(n.value, ast.Dict) and n.value.keys:
         for k in n.value.keys:
-          if not (isinstance(k, ast.Call) and astu.call_name(k) == '_key'):
+          if not any(isinstance(k_, ast.Call) and astu.call_name(k_) == '_key' for k_ in evid.expand(inner, k)):
             bad.append(n)
-    R.check(not bad, key_of(inner, 'all keys built by _key'), inner,
+    raw_keys = [n for n in bad if any(astu.src(k) in astu.params(inner.node) for k in n.value.keys)]
+    R.judge(not bad or bool(raw_keys), not bad, key_of(inner, 'all keys built by _key'), inner,
             'an entry is emitted with a key that does not pass through _key (separator ignored): %s' %
             (astu.short(bad[0]) if bad else ''))
     # (b) sentinel: emitted only under keep_empty_nodes and is_empty, never for the root
@@ -112,13 +138,15 @@ def r1(R, repo):
     kt = [n for n in c.nodes if n.kind == 'if' and 'keep_empty_nodes' in astu.names_loaded(n.ast)]
     ok_and = all(isinstance(t.ast, ast.BoolOp) and isinstance(t.ast.op, ast.And) and
                  {'keep_empty_nodes', 'is_empty'} <= astu.names_loaded(t.ast) for t in kt)
-    R.check(ok_guard and ok_and, key_of(inner, 'empty_node only for empty non-root mappings under keep_empty_nodes'), inner,
+    roots_found = any(n.kind == 'if' and astu.src(n.ast) in ('prefix == ()', 'not prefix', '() == prefix') for n in c.nodes)
+    R.judge(bool(kt) and roots_found and all(isinstance(t.ast, ast.BoolOp) for t in kt), ok_guard and ok_and, key_of(inner, 'empty_node only for empty non-root mappings under keep_empty_nodes'), inner,
             'empty_node must be emitted only when keep_empty_nodes and the mapping is empty, and never for the root prefix')
     um = _sentinel_refs(repo, mod, U)
     R.require(len(um) >= 1, '%s no longer compares against empty_node' % unfl)
     homes_f = {_sentinel_home(repo, mod, e) for e in em}
     homes_u = {_sentinel_home(repo, mod, e) for e in um}
-    R.check(homes_f == homes_u and None not in homes_f and len(homes_f) == 1 and list(homes_f)[0][0] == rel,
+    txt_f, txt_u = {astu.dotted(e) for e in em}, {astu.dotted(e) for e in um}
+    R.judge(None not in homes_f and (None not in homes_u or txt_f != txt_u), homes_f == homes_u and None not in homes_f and len(homes_f) == 1 and list(homes_f)[0][0] == rel,
             key_of(mod.rel, fl, unfl, 'same sentinel object'), (mod, um[0]),
             'flatten emits sentinel %s but unflatten compares against %s (they must be the same module-level object of %s)' %
             (sorted(map(str, homes_f)), sorted(map(str, homes_u)), rel))
@@ -130,19 +158,21 @@ def r1(R, repo):
         for st in n.body:
           if isinstance(st, ast.Assign) and isinstance(st.value, ast.Dict) and not st.value.keys:
             ok = True
-    R.check(ok, key_of(U, 'sentinel -> {}'), U, '%s must replace the empty-node sentinel by a new empty dict' % unfl)
+    has_test = any(isinstance(n, ast.If) and any(e in ast.walk(n.test) for e in um) for n in astu.body_walk(U.node))
+    R.judge(has_test, ok, key_of(U, 'sentinel -> {}'), U, '%s must replace the empty-node sentinel by a new empty dict' % unfl)
     cu = cfg_of(U)
     st_ = [n for n in cu.nodes if n.kind == 'if' and any(e in ast.walk(n.ast) for e in um)]
     sp_ = [n for n in cu.nodes if n.kind == 'if' and astu.src(n.ast) in ('sep is None', 'sep is not None')]
     indep = bool(st_) and bool(sp_) and not any(cu.edge_guarded(a, b, lab) for a in st_ for b in sp_ for lab in ('T', 'F'))
-    R.check(indep, key_of(U, 'sentinel restored with and without a separator'), U,
+    R.judge(bool(st_) and bool(sp_), indep, key_of(U, 'sentinel restored with and without a separator'), U,
             '%s tests for the empty-node sentinel only on one branch of the separator test: with sep given (or not given) empty sub-dicts come back as the sentinel object instead of {}' % unfl)
   # (c) path_aware_map
   mod = repo.mod(TU)
   P = mod.func('path_aware_map')
   fc = [c for c in astu.func_calls(P) if astu.call_name(c) == 'flatten_dict']
   R.require(fc, 'path_aware_map no longer calls flatten_dict')
-  R.check(astu.is_const(astu.kwarg(fc[0], 'keep_empty_nodes'), True), key_of(P, 'keep_empty_nodes=True'), (P, fc[0]),
+  ken = astu.kwarg(fc[0], 'keep_empty_nodes')
+  R.check(astu.is_const(ken, True), key_of(P, 'keep_empty_nodes=True'), (P, fc[0]), evidence=(ken is None and not astu.has_star_kwargs(fc[0]) and len(fc[0].args) < 2) or isinstance(ken, ast.Constant), msg_fail=
           'path_aware_map must flatten with keep_empty_nodes=True, otherwise empty sub-dicts vanish from the result')
   comps = [n for n in astu.body_walk(P.node) if isinstance(n, ast.DictComp)]
   ok = False
@@ -190,7 +220,7 @@ def r2(R, repo):
         if any(x in r for x in rec_nodes):
           once = False
       once = once and len(rec) == len(set(id(n) for n in rec_nodes))
-    R.check(once, key_of(inner, 'one recursive call per entry'), (inner, loop),
+    R.judge(len(rec) >= 1, once, key_of(inner, 'one recursive call per entry'), (inner, loop),
             '%s._flatten must recurse exactly once for every mapping entry' % fl)
     ok = False
     if rec:
@@ -208,7 +238,8 @@ def r2(R, repo):
         elif isinstance(path, ast.Tuple):
           ok = ok and isinstance(path.elts[0], ast.Starred) and pname in astu.names_loaded(path.elts[0]) and \
               kname in astu.names_loaded(path.elts[-1])
-    R.check(ok, key_of(inner, 'child path = prefix + (key,)'), (inner, loop),
+    found_path = bool(rec) and len(rec[0].args) == 2 and isinstance(rec[0].args[0], ast.Name) and rec[0].args[0].id == vname and {pname, kname} <= astu.names_loaded(path if rec and len(rec[0].args) == 2 else ast.Constant(value=0))
+    R.judge(found_path, ok, key_of(inner, 'child path = prefix + (key,)'), (inner, loop),
             '%s._flatten must recurse into `value` with the path prefix extended by exactly this key (prefix first)' % fl)
     # result of recursion is merged into what is returned
     if fl != 'flatten_to_sequence':
@@ -253,7 +284,7 @@ def r2(R, repo):
     ok_store = len(stores) == 1 and astu.src(stores[0].targets[0].slice) == '%s[-1]' % pname and astu.src(stores[0].value) == vname \
         and outer.body.index(stores[0]) > outer.body.index(il)
     cur = astu.src(stores[0].targets[0].value) if stores else None
-    R.check(ok_iter and ok_store, key_of(U, 'cursor[path[-1]] = value once per item'), (U, outer),
+    R.judge(len(stores) == 1 and ok_iter and pname in astu.names_loaded(stores[0].targets[0].slice), ok_iter and ok_store, key_of(U, 'cursor[path[-1]] = value once per item'), (U, outer),
             '%s must walk path[:-1] and then assign cursor[path[-1]] = value exactly once per item' % unfl)
     # cursor is reset to the result root for every item before walking
     resets = [st for st in outer.body if isinstance(st, ast.Assign) and astu.src(st.targets[0]) == cur
@@ -261,7 +292,7 @@ def r2(R, repo):
     rets = [n for n in astu.body_walk(U.node) if isinstance(n, ast.Return)]
     ok = bool(resets) and outer.body.index(resets[0]) < outer.body.index(il) and rets and \
         astu.src(rets[-1].value) == astu.src(resets[0].value)
-    R.check(ok, key_of(U, 'cursor restarts at result root; result returned'), (U, outer),
+    R.judge(bool(resets) and bool(rets), ok, key_of(U, 'cursor restarts at result root; result returned'), (U, outer),
             '%s must restart the cursor at the result dict for every item and return that dict' % unfl)
     # intermediate dict creation is guarded by `key not in cursor`, then descend
     kname = il.target.id if isinstance(il.target, ast.Name) else None
@@ -277,7 +308,11 @@ def r2(R, repo):
       desc = [st for st in il.body if isinstance(st, ast.Assign) and astu.src(st.targets[0]) == cur
               and astu.src(st.value) == '%s[%s]' % (cur, kname)]
       ok = ok and len(desc) == 1 and il.body[-1] is desc[0]
-    R.check(ok, key_of(U, 'create intermediate dict only if absent, then descend'), (U, il),
+    sd = [x for x in ast.walk(il) if isinstance(x, ast.Call) and astu.call_tail(x) == 'setdefault']
+    absent = lambda e: isinstance(e, ast.Compare) and len(e.ops) == 1 and isinstance(e.ops[0], ast.NotIn) and astu.src(e.left) == kname
+    present = lambda e: isinstance(e, ast.Compare) and len(e.ops) == 1 and isinstance(e.ops[0], ast.In) and astu.src(e.left) == kname
+    unguarded = bool(creates) and kname and not sd and all(evid.guarded(c, x, absent) != 'yes' and evid.guarded(c, x, present, negative=True) != 'yes' for x in c.nodes_of_stmt(creates[0]))
+    R.judge(ok or bool(unguarded), ok, key_of(U, 'create intermediate dict only if absent, then descend'), (U, il),
             '%s must create an intermediate dict only when the key is absent (never overwrite a sibling subtree) and then descend' % unfl)
 
 
@@ -295,7 +330,7 @@ def _k9_scan(R, repo, rels):
         if t and t[0] == 'builtin' and t[1] in types.BUILTIN_MEMBERS and isinstance(astu.parent(n), ast.Call) and astu.parent(n).func is n:
           checked += 1
           key = key_of(f, '%s.%s' % (astu.short(n.value, 40), n.attr), 'on', t[1])
-          R.check(n.attr in types.BUILTIN_MEMBERS[t[1]] or n.attr.startswith('__'), key, (f, n),
+          R.check(n.attr in types.BUILTIN_MEMBERS[t[1]] or n.attr.startswith('__'), key, (f, n), evidence=True, msg_fail=
                   'method `%s` does not exist on builtin %s; receiver `%s`' % (n.attr, t[1], astu.short(n.value, 40)))
           continue
         if not t or t[0] != 'cls':
@@ -343,7 +378,7 @@ def r4(R, repo):
   M = mod.func('merge_state')
   loops = [n for n in astu.body_walk(M.node) if isinstance(n, ast.For)]
   if len(loops) != 1:
-    R.fail(key_of(M, 'later states win'), M, 'merge_state no longer folds the states one by one with dict.update in argument order (later states must win on overlapping paths)')
+    R.unsure(key_of(M, 'later states win'), M, 'merge_state no longer folds the states one by one with dict.update in argument order (later states must win on overlapping paths)')
     loops = None
   lp = loops[0] if loops else None
   if lp is None:
@@ -363,7 +398,11 @@ def r4(R, repo):
     rets = [n for n in astu.body_walk(M.node) if isinstance(n, ast.Return)]
     ok = ok and isinstance(rets[-1].value, ast.Call) and astu.call_name(rets[-1].value) == 'from_flat_state' and \
         astu.src(rets[-1].value.args[0]) == acc
-  R.check(ok, key_of(M, 'later states win'), (M, lp),
+  seq_found = isinstance(lp.iter, ast.Name) and isinstance(seq, ast.Tuple) and len(seq.elts) == 2 and len(upd) == 1 and sum(isinstance(e_, ast.Starred) for e_ in seq.elts) == 1
+  chain = [x for x in astu.func_calls(M) if astu.call_tail(x) == 'ChainMap' and not any(isinstance(y, ast.Call) and astu.call_name(y) == 'reversed' for y in ast.walk(x)) and '[::-1]' not in astu.src(x)]
+  if chain and not any(isinstance(y, ast.Call) and astu.call_name(y) == 'reversed' or '[::-1]' in astu.src(y) for d_ in ast.walk(M.node) if isinstance(d_, ast.Assign) for y in [d_.value]):
+    R.fail(key_of(M, 'later states win'), (M, chain[0]), 'merge_state combines the flattened states with `%s`: a ChainMap resolves a key in the *first* mapping that has it, so earlier states win on overlapping paths' % astu.short(chain[0]))
+  R.judge(seq_found and (ok or not order_ok), ok, key_of(M, 'later states win'), (M, lp),
           'merge_state must fold the states in argument order with dict.update of their flattened mappings into one fresh '
           'dict and build the result from it (later states win on overlapping paths)')
   # diff
@@ -385,7 +424,7 @@ def r4(R, repo):
            '`%s` tests membership in `%s`, which is %s, not a collection of paths: a - b would not remove the paths of b' % (
                astu.src(conds[0]), astu.src(rhs), 'a sequence of (path, value) pairs' if kind == 'pairs' else 'a nested State (top-level keys only)'))
   else:
-    R.check(derives_other, key_of(D, 'membership over paths'), (D, conds[0]),
+    R.judge(src_def is not None and (derives_other or astu.params(D.node)[0] in astu.names_loaded(src_def)), derives_other, key_of(D, 'membership over paths'), (D, conds[0]),
             'the right-hand side of `not in` must be the flattened paths of the second operand')
     if kind is None:
       R.note('diff: container type of `%s` not inferred; accepted' % astu.src(rhs))
@@ -404,7 +443,7 @@ def r4(R, repo):
     ok = ck == 'pairs' and d0 is not None and astu.params(D.node)[0] in astu.names_loaded(d0)
     msg = 'iteration source `%s` is not the flat (path, value) sequence of the first operand' % astu.src(it)
   ok = ok and astu.src(dc.key) == k and astu.src(dc.value) == v
-  R.check(ok, key_of(D, 'iterates the flat (path, value) pairs of the first operand'), (D, dc),
+  R.judge(ck is not None and d0 is not None, ok, key_of(D, 'iterates the flat (path, value) pairs of the first operand'), (D, dc),
           'diff must keep (path, value) pairs of its first operand: ' + msg)
   rets = [n for n in astu.body_walk(D.node) if isinstance(n, ast.Return)]
   R.check(isinstance(rets[-1].value, ast.Call) and astu.call_name(rets[-1].value) == 'from_flat_state', key_of(D, 'result rebuilt from flat diff'),
@@ -415,12 +454,12 @@ def r4(R, repo):
     calls = [c for c in astu.func_calls(f) if astu.call_name(c) == '_split_state']
     ok = len(calls) == 1 and isinstance(calls[0].args[0], ast.Call) and astu.call_name(calls[0].args[0]) == 'to_flat_state' and \
         astu.src(calls[0].args[0].args[0]) == astu.params(f.node)[0]
-    R.check(ok, key_of(f, 'partition by _split_state(to_flat_state(state), *filters)'), f,
+    R.judge(len(calls) == 1 and bool(calls[0].args), ok, key_of(f, 'partition by _split_state(to_flat_state(state), *filters)'), f,
             '%s must partition the sorted flat state of its argument with _split_state' % f.name)
   c = cfg_of(S)
   raises = [n for n in c.nodes if isinstance(n.stmt, ast.Raise)]
   tests = [n for n in c.nodes if n.kind == 'if' and astu.src(n.ast) == 'rest']
-  R.check(bool(raises) and bool(tests) and all(c.edge_guarded(r, tests[0], 'T') for r in raises), key_of(S, 'non-empty remainder raises'), S,
+  R.judge((bool(raises) and bool(tests)) or (not raises and not evid.raises_deep(repo, S, 'ValueError')), bool(raises) and bool(tests) and all(c.edge_guarded(r, tests[0], 'T') for r in raises), key_of(S, 'non-empty remainder raises'), S,
           'split_state must raise when the filters are not exhaustive (non-empty remainder)')
   # operators delegate with operand order preserved
   for meth, callee in (('State.__or__', 'merge_state'), ('State.__sub__', 'diff')):
@@ -428,7 +467,7 @@ def r4(R, repo):
     calls = [c for c in astu.func_calls(f) if astu.call_name(c) == callee]
     ps = astu.params(f.node)
     ok = len(calls) == 1 and [astu.src(a) for a in calls[0].args] == ps[:2]
-    R.check(ok, key_of(f, 'delegates to %s(self, other)' % callee), f,
+    R.judge(len(calls) == 1 and sorted(astu.src(a) for a in calls[0].args) == sorted(ps[:2]), ok, key_of(f, 'delegates to %s(self, other)' % callee), f,
             '%s must return %s(self, other) with the operands in that order' % (meth, callee))
 
 
@@ -444,7 +483,7 @@ def r5(R, repo):
   ok = bool(srt) and bool(tests) and c.edge_guarded(srt[0], tests[0], 'T') and bool(loops) and \
       astu.src(srt[0].stmt.targets[0]) == astu.src(loops[0].ast) and not c.must_pass(c.entry, loops[0], []) is True
   ok = ok and loops[0] in c.reach([srt[0]])
-  R.check(ok, key_of(init, 'sort=True sorts before storing'), init,
+  R.judge(bool(srt) and bool(tests) and bool(loops), ok, key_of(init, 'sort=True sorts before storing'), init,
           'FlatState.__init__ must sort the items (before splitting them into keys/values) when sort is true')
   # all FlatState(...) constructions: sort=True unless in the table of order-preserving sites
   UNSORTED_OK = {
@@ -476,7 +515,7 @@ def r5(R, repo):
       for call in astu.func_calls(f):
         if astu.call_tail(call) == 'from_sorted_keys_values':
           key = key_of(f, 'from_sorted_keys_values')
-          R.check(f.fq in SORTED_CALLERS, key, (f, call),
+          R.check(f.fq in SORTED_CALLERS, key, (f, call), evidence=True, msg_fail=
                   'from_sorted_keys_values skips sorting and may only be called from %s (graph traversal in sorted key order)' % sorted(SORTED_CALLERS))
   # _split_state input is order preserving: iterates the flat state once, in order
   sp = mod.func('_split_state')
@@ -496,7 +535,7 @@ def r5(R, repo):
           '_state_flatten_with_keys must derive both children and static keys from one sorted item list')
   zips = [c for c in astu.func_calls(un) if astu.call_name(c) == 'zip']
   ps = astu.params(un.node)
-  R.check(len(zips) == 1 and [astu.src(a) for a in zips[0].args] == ps[1:3], key_of(un, 'zip(static, leaves)'), un,
+  R.judge(len(zips) == 1 and sorted(astu.src(a) for a in zips[0].args) == sorted(ps[1:3]), len(zips) == 1 and [astu.src(a) for a in zips[0].args] == ps[1:3], key_of(un, 'zip(static, leaves)'), un,
           '_state_unflatten must pair static keys with leaves positionally in flatten order')
   tf = mod.func('to_flat_state')
   fts = [c for c in astu.func_calls(tf) if astu.call_name(c) == 'traversals.flatten_to_sequence']
@@ -526,7 +565,7 @@ def r6(R, repo):
   ok = bool(raises) and bool(stores) and bool(tests) and c.edge_guarded(raises[0], tests[0], 'T') and \
       all(c.dominated(s, [tests[0]]) for s in stores) and \
       astu.src(tests[0].ast.left) == astu.src(stores[0].stmt.targets[0].slice)
-  R.check(ok, key_of(rp, 'unknown path raises before store'), rp,
+  R.judge((bool(raises) and bool(stores) and bool(tests)) or (bool(stores) and not raises and not evid.raises_deep(repo, rp, 'ValueError')), ok, key_of(rp, 'unknown path raises before store'), rp,
           'replace_by_pure_dict must raise for a path that is not in the state before storing anything under it')
   ups = [c_ for c_ in astu.func_calls(rp) if astu.call_tail(c_) == 'update' and astu.src(c_.func.value) == astu.params(rp.node)[0]]
   R.check(len(ups) == 1 and 'current_flat' in astu.names_loaded(ups[0]), key_of(rp, 'state updated from merged flat mapping'), rp,
